@@ -161,7 +161,14 @@ pub fn plan_strategy(cfg: &PlanCfg) -> BoxedStrategy<Plan> {
         cfg.steps.1 = cfg.steps.1 * 3 / 2;
         cfg.editors.1 = (cfg.editors.1 + 1).min(5);
     }
-    let steps = proptest::collection::vec(step_strategy(&cfg.w), cfg.steps.0..=cfg.steps.1);
+    // 4 % of the cases are LONG histories (3-4x the usual length, up to 110 steps): deep states (long lists, counters
+    // in the tens, many pending removes) that short histories never reach
+    let long_lo = (cfg.steps.1 * 3).min(90);
+    let long_hi = (cfg.steps.1 * 4).min(110);
+    let steps = prop_oneof![
+        96 => proptest::collection::vec(step_strategy(&cfg.w), cfg.steps.0..=cfg.steps.1),
+        4 => proptest::collection::vec(step_strategy(&cfg.w), long_lo..=long_hi),
+    ];
     let settle = proptest::collection::vec(any::<u16>(), cfg.settle..=cfg.settle);
     (cfg.editors.0..=cfg.editors.1, cfg.observers.0..=cfg.observers.1, steps, settle, any::<u16>())
         .prop_map(|(editors, observers, steps, settle, actors)| Plan { editors, observers, steps, settle, actors })
